@@ -419,8 +419,17 @@ func (s *Sched) reschedule() {
 				opts = append(opts, t.id)
 			}
 		}
-		if s.nextTimer() != nil && !(s.cfg.KeepTimers && len(opts) == 0) {
-			opts = append(opts, timerOpt)
+		if s.nextTimer() != nil {
+			allDone := true
+			for _, t := range s.threads {
+				if !t.done {
+					allDone = false
+				}
+			}
+			// KeepTimers: pending timers are not fired once every thread has finished
+			if !(s.cfg.KeepTimers && allDone) {
+				opts = append(opts, timerOpt)
+			}
 		}
 		s.opts = opts
 		if len(opts) == 0 {
